@@ -271,6 +271,15 @@ def run(ctx, out):
             sels += [("focus", F, []), ("shapes", [], U), ("both", F, U)]
         for sel in sels:
             plan.append((sg, dg, sel + (rng.random() < 0.35,)))
+    # corpus: a selected property shape whose qualified value shape has disjoint siblings under a parent that is not selected
+    # (repaired defect: the sibling shapes were missing from the shape cache of the selection — AttributeError)
+    hand_sg = Graph().parse(data="""@prefix sh: <http://www.w3.org/ns/shacl#> . @prefix ex: <http://ex.test/> .
+        ex:Hand a sh:NodeShape ; sh:targetClass ex:C0 ; sh:property ex:Thumb, ex:Finger .
+        ex:Thumb a sh:PropertyShape ; sh:path ex:p0 ; sh:qualifiedValueShape [ sh:class ex:C1 ] ; sh:qualifiedValueShapesDisjoint true ; sh:qualifiedMinCount 1 ; sh:qualifiedMaxCount 1 .
+        ex:Finger a sh:PropertyShape ; sh:path ex:p0 ; sh:qualifiedValueShape [ sh:class ex:C2 ] ; sh:qualifiedValueShapesDisjoint true ; sh:qualifiedMinCount 2 .""", format="turtle")
+    hand_dg = Graph().parse(data="""@prefix ex: <http://ex.test/> . ex:n0 a ex:C0 ; ex:p0 ex:n1, ex:n2 . ex:n1 a ex:C1, ex:C2 . ex:n2 a ex:C1 . ex:n3 a ex:C0 ; ex:p0 ex:n2 .""", format="turtle")
+    for sel in (("both", [EX.n0], [EX.Thumb]), ("both", [EX.n3, EX.n0], [EX.Thumb, EX.Finger]), ("shapes", [], [EX.Thumb]), ("shapes", [], [EX.Hand])):
+        plan.insert(0, (hand_sg, hand_dg, sel + (False,)))
     lines = []
     for k, (sg, dg, (mode, F, U, adv)) in enumerate(plan):
         lines.append(vcase.model_line("c%d" % k, sg, dg, {"advanced": adv}, focus=F, use_shapes=U))
